@@ -145,6 +145,14 @@ def main():
     ok1, _, out1 = common.prove(chk, "C20", ["Scc.Runtime.Model", "Scc.Runtime.Proofs", "Scc.Props.C20"], THEOREMS_ALWAYS)
     ok2, _, out2 = common.prove(chk, "C20", ["Scc.Runtime.Current", "Scc.Props.C20Cur"], THEOREMS_CUR)
     ok3, _, out3 = common.prove(chk, "C20", ["Scc.Props.C20Full"], THEOREMS_FULL, role="full-theorem")
+    # every decimal SPELLING of an argument (sign, leading zeros, leading blanks) reaches the parameter: Props/C20Spelling.lean
+    import mk_obligations
+
+    sp_file = os.path.join(common.LEAN, "Scc", "Props", "C20Spelling.lean")
+    if os.path.exists(sp_file):
+        ok4, _, out4 = common.prove(chk, "C20", ["Scc.Props.C20Spelling"], mk_obligations.theorems(sp_file))
+        ok3 = ok3 and ok4
+        out3 += out4
     proofs_ok = ok1 and ok2 and ok3 and not errors
 
     # 3 correspondence + oracle: io.c natively
